@@ -29,6 +29,7 @@ type Result struct {
 	SolverErrors  int                      `json:"solver_errors"`
 	Steps         int64                    `json:"ssa_instructions"`
 	Summaries     int                      `json:"summaries"`
+	EnumDecided   int                      `json:"branches_decided_by_byte_enumeration"`
 	SummaryAborts int                      `json:"summary_aborts"`
 	SolverTimeS   float64                  `json:"solver_time_s"`
 	WallS         float64                  `json:"wall_s"`
@@ -180,6 +181,7 @@ func explore(P *Program, entry *ssa.Function, spec *Spec) *Result {
 		res.SolverErrors += e.solver.Errors
 		res.Steps += e.stats.Steps
 		res.Summaries += e.stats.Summaries
+		res.EnumDecided += e.stats.EnumDecided
 		res.SummaryAborts += e.stats.SummaryAborts
 		res.SolverTimeS += e.solver.Time.Seconds()
 		for k := range e.funcsHit {
@@ -267,7 +269,7 @@ func explore(P *Program, entry *ssa.Function, spec *Spec) *Result {
 
 func (e *Exec) samplePath(out pathOutcome) map[string]interface{} {
 	m := map[string]interface{}{"end": out.end, "decisions": len(e.dec.prefix), "pc_terms": len(e.pc), "obligations": e.pathObl}
-	r, model := e.solver.Check(e.pc, nil, e.P.cfg.BranchTimeoutMs, e.pathVars)
+	r, model := e.check(nil, e.P.cfg.BranchTimeoutMs, e.pathVars)
 	if r == Sat {
 		disp := map[string]uint64{}
 		for smt, v := range model {
